@@ -913,7 +913,20 @@ func (c *checker) expr1(e hs.Expr) *hs.Type {
 				return TUnknown
 			}
 			return hs.TStr
-		case hs.KAnyObj, hs.KObj:
+		case hs.KObj:
+			// a string literal names a field of the object - its own fields, not the builtin members
+			if lit, ok := n.I.(*hs.StrLit); ok {
+				for _, f := range xt.Fields {
+					if f.Name == lit.V {
+						return f.T
+					}
+				}
+				c.viol(RUnknownMember, e, "%s has no field '%s'", TypeString(xt), lit.V)
+				return TUnknown
+			}
+			c.unsupported("object index")
+			return TUnknown
+		case hs.KAnyObj:
 			c.unsupported("object index")
 			return TUnknown
 		case KUnknown, hs.KNever:
